@@ -2,6 +2,12 @@ A = "modeling/amplitudechain.py"
 T = "modeling/ampgentransform.py"
 G = "data/ampgen.lark"
 MUTANTS = [
+    ("g-spin-tag-dropped", "data/ampgen.lark", 'SPIN : "S" | "P" | "D"', 'SPIN : "S" | "P"', "C17.9"),
+    ("g-lineshape-one-char", "data/ampgen.lark", 'LINESHAPE : CHAR (CHAR | ".")+', 'LINESHAPE : CHAR (CHAR | ".")*', "C17.9"),
+    ("g-single-line-only", "data/ampgen.lark", "start : _NEWLINE? (line _NEWLINE)+", "start : _NEWLINE? (line _NEWLINE)", "C17.9"),
+    ("g-label-no-parens", "data/ampgen.lark", 'PARENS : "(" | ")"', 'PARENS : "("', "C17.9"),
+    ("g-eventtype-keyword", "data/ampgen.lark", 'event_type : "EventType" particle particle+', 'event_type : "Eventtype" particle particle+', "C17.9"),
+    ("g-one-tag-only", "data/ampgen.lark", 'decaytype : "[" (spinfactor | lineshape) (";" lineshape)? "]"', 'decaytype : "[" (spinfactor | lineshape) "]"', "C17.9"),
     ("f7-regression", A, "            (fcs,) = fcs\n            (fcs,) = fcs\n            cls.cartesian = bool(int(fcs))", "            (fcs,) = fcs\n            (fcs,) = fcs.children\n            cls.cartesian = bool(int(fcs))", "C17.2"),
     ("flag-truthy", A, "            cls.cartesian = bool(int(fcs))", "            cls.cartesian = bool(fcs)", "C17.6"),
     ("flag-one-unpack", A, "            (fcs,) = fcs\n            (fcs,) = fcs\n            cls.cartesian = bool(int(fcs))", "            (fcs,) = fcs\n            cls.cartesian = bool(int(fcs))", "C17.6"),
